@@ -238,5 +238,15 @@ pub fn p_qpack_lookup_index_sound() {
     check_lookup("", "", false);
 }
 
+/// Quick slice of the above: a `KeyValue` (indexed field line) answer requires the value to match
+/// the table row EXACTLY - values that differ only by letter case are name references.
+#[kani::proof]
+#[kani::unwind(101)]
+pub fn p_qpack_lookup_index_exact_value() {
+    check_lookup(":method", "connect", true);
+    check_lookup("x-frame-options", "DENY", true);
+    check_lookup(":status", "200", true);
+}
+
 // (`Encoder::encode` itself does not terminate in CBMC even for one concrete field - Vec growth +
 // iterator chain + Huffman tables; it is verified by the Verus unit `qpack_encode`.)
